@@ -135,6 +135,10 @@ class StepOracle:
                 Nheld = float(np.sum(snap["x_old"][p]))
                 Nraw = float(np.sum(snap["x_new"][p]))
                 bound = snap["dt"] * J * (1 + 1e-9) + 64 * len(x) * EPS * max(float(np.sum(np.abs(snap["x_old"][p]))), float(np.sum(np.abs(snap["x_new"][p]))), 1e-300)
+                # the reported density itself (not only the conservative raw sum): a class drained through both faces beyond its content
+                # used to hand its neighbours more particles than it held (KF-C07-3) - particles out of nothing, no nucleation involved
+                if gotN - Nheld > bound:
+                    self._fail("density_grows_beyond_nucleation_reported", "step %d phase %d: reported density rose by %r (raw %r) in dt=%r, nucleation allows at most %r" % (n, p, gotN - Nheld, Nraw - Nheld, snap["dt"], snap["dt"] * J), step=int(n))
                 if Nraw - Nheld > bound:
                     self._fail("density_grows_beyond_nucleation", "step %d phase %d: number density rose by %r in dt=%r, nucleation allows at most %r (max stage rate %r)" % (n, p, Nraw - Nheld, snap["dt"], snap["dt"] * J, J), step=int(n))
                 if J == 0 and Nheld > 0:
